@@ -130,7 +130,9 @@ def cond_dist(d, cond_idx, timeout_ms=60000):
     #   sb_ii * det(S22) = det(S[{i}+cond]),   det(sb) * det(S22) = det(S[free+cond])
     # (each identity is a solver query; the sign then follows from the positive principal minors of a
     # positive-definite matrix, which are added as hypotheses - a true fact about PD matrices)
-    if len(c1) <= 2:
+    # (not attempted for 2 free and 2 conditioned columns, d = 4: the determinant identity det(sb)*det(S22) = det(S) with a
+    #  2x2 inverse inside was measured to stay `unknown` for 300 s, directly and with cleared denominators)
+    if len(c1) <= 2 and not (len(c1) == 2 and len(ccols) >= 2):
         t0 = time.time()
         import itertools as _it
         pm = []
@@ -144,12 +146,12 @@ def cond_dist(d, cond_idx, timeout_ms=60000):
         for i, a in enumerate(c1):
             sub = [ix[a]] + ci
             l_ = tz(sg[i, i]) * d22 == tz(det(M[np.ix_(sub, sub)]))
-            okl = okl and _valid(hyps + pm, l_, timeout_ms)[0] == 'unsat'
+            okl = okl and _valid_each(hyps, [l_], timeout_ms, M)[0] == 'unsat'
             lem.append(l_)
         if len(c1) == 2:
             sub = [ix[c1[0]], ix[c1[1]]] + ci
             l_ = tz(det(sg)) * d22 == tz(det(M[np.ix_(sub, sub)]))
-            okl = okl and _valid(hyps + pm, l_, timeout_ms)[0] == 'unsat'
+            okl = okl and _valid_each(hyps, [l_], timeout_ms, M)[0] == 'unsat'
             lem.append(l_)
         goals = [tz(sg[i, i]) >= 0 for i in range(len(c1))]
         if len(c1) == 2:
@@ -391,7 +393,7 @@ def run(tier, seed):
     dmax = 3 if tier == 'quick' else 4
     ck.bounds = {'columns d': f'2..{dmax}', 'conditioning sets': 'all non-empty proper subsets', 'rows': 2,
                  'correlation': 'any symmetric positive-definite real matrix (leading minors > 0)', 'containers': ['dict', 'Series']}
-    ck.outside = ['the distribution of the draws (numpy multivariate_normal)', 'PSD of the Schur complement for more than 2 free columns',
+    ck.outside = ['the distribution of the draws (numpy multivariate_normal)', 'PSD of the Schur complement for more than 2 free columns, and for 2 free with 2 or more conditioned columns (d = 4; the solver does not decide the determinant identity)',
                   'd in 5..6: same code path (no dimension-specific branches); not enumerated']
     ck.assumptions = ['oracle: orthogonality principle (regression characterisation of the conditional Gaussian), independent of the Schur formula the code uses']
     jobs = []
